@@ -267,6 +267,9 @@ func (p *Pather) path(v ssa.Value) string {
 		if x.High != nil {
 			hi = p.Path(x.High)
 		}
+		if lo == "" && hi == "" {
+			return p.Path(x.X)
+		}
 		return p.Path(x.X) + "[" + lo + ":" + hi + "]"
 	case *ssa.IndexAddr:
 		return p.Path(x.X) + "[" + p.Path(x.Index) + "]"
@@ -301,8 +304,8 @@ func (p *Pather) path(v ssa.Value) string {
 		}
 		return "phi(" + strings.Join(parts, "|") + ")"
 	case *ssa.Alloc:
-		if sv, ok := p.single[x]; ok && !x.Heap {
-			_ = sv
+		if lit, ok := p.arrayLit(x); ok {
+			return lit
 		}
 		return "local:" + allocName(x)
 	case *ssa.MakeSlice:
@@ -319,6 +322,66 @@ func (p *Pather) path(v ssa.Value) string {
 		return "next(" + p.Path(x.Iter) + ")"
 	}
 	return fmt.Sprintf("?%T", v)
+}
+
+// ArrayLitElems returns the element values of an array alloc that is only ever
+// written by stores to constant indices (a composite/slice literal), indexed by
+// position; ok=false when the alloc is written in any other way.
+func ArrayLitElems(a *ssa.Alloc) (elems []ssa.Value, ok bool) {
+	pt, isPtr := a.Type().Underlying().(*types.Pointer)
+	if !isPtr {
+		return nil, false
+	}
+	at, isArr := pt.Elem().Underlying().(*types.Array)
+	if !isArr || at.Len() > 64 {
+		return nil, false
+	}
+	elems = make([]ssa.Value, at.Len())
+	stores := 0
+	for _, r := range Referrers(a) {
+		switch x := r.(type) {
+		case *ssa.IndexAddr:
+			idx, isConst := ConstInt(x.Index)
+			if !isConst || idx < 0 || idx >= at.Len() {
+				return nil, false
+			}
+			for _, r2 := range Referrers(x) {
+				st, isStore := r2.(*ssa.Store)
+				if !isStore || st.Addr != ssa.Value(x) {
+					return nil, false
+				}
+				if elems[idx] != nil {
+					return nil, false
+				}
+				elems[idx] = st.Val
+				stores++
+			}
+		case *ssa.Slice:
+		case *ssa.DebugRef:
+		default:
+			return nil, false
+		}
+	}
+	if stores == 0 {
+		return nil, false
+	}
+	return elems, true
+}
+
+func (p *Pather) arrayLit(a *ssa.Alloc) (string, bool) {
+	elems, ok := ArrayLitElems(a)
+	if !ok {
+		return "", false
+	}
+	var parts []string
+	for _, e := range elems {
+		if e == nil {
+			parts = append(parts, "0")
+		} else {
+			parts = append(parts, p.Path(e))
+		}
+	}
+	return "[" + strings.Join(parts, ",") + "]", true
 }
 
 func allocName(a *ssa.Alloc) string {
@@ -409,6 +472,13 @@ func Referrers(v ssa.Value) []ssa.Instruction {
 // `loopVisits` times per block) as sequences of events produced by `ev` for
 // instructions; sequences are de-duplicated. Returns ok=false above cap paths.
 func EventPaths(fn *ssa.Function, ev func(ssa.Instruction) string, loopVisits, cap int) (paths [][]string, ok bool) {
+	return EventPathsB(fn, ev, nil, loopVisits, cap)
+}
+
+// EventPathsB is EventPaths with branch events: for every If whose condition
+// `br` names (non-empty), the event "<name>=T" or "<name>=F" is recorded
+// according to the successor taken.
+func EventPathsB(fn *ssa.Function, ev func(ssa.Instruction) string, br func(ssa.Value) string, loopVisits, cap int) (paths [][]string, ok bool) {
 	if len(fn.Blocks) == 0 {
 		return nil, true
 	}
@@ -447,10 +517,25 @@ func EventPaths(fn *ssa.Function, ev func(ssa.Instruction) string, loopVisits, c
 				paths = append(paths, append([]string(nil), cur...))
 			}
 		} else {
-			for _, s := range b.Succs {
+			brName := ""
+			if br != nil && len(b.Succs) == 2 {
+				if iff, isIf := b.Instrs[len(b.Instrs)-1].(*ssa.If); isIf {
+					brName = br(iff.Cond)
+				}
+			}
+			for si, s := range b.Succs {
+				n1 := len(cur)
+				if brName != "" {
+					if si == 0 {
+						cur = append(cur, brName+"=T")
+					} else {
+						cur = append(cur, brName+"=F")
+					}
+				}
 				if !walk(s) {
 					return false
 				}
+				cur = cur[:n1]
 			}
 		}
 		cur = cur[:n0]
